@@ -766,6 +766,53 @@ func (e *Env) evalCall(ex *SExpr) Val {
 			default:
 				return Val{Typ: types.Typ[types.Int], L: []string{fmt.Sprint(idx[k])}}
 			}
+		case "calledUnder":
+			// calledUnder("event", k, x.mu): the k-th such call happened with the lock held
+			name := e.strArg(args[0])
+			k := e.intArg(args[1])
+			lk := e.lockKey(args[2])
+			idx := e.matchEvents(name)
+			if k >= len(idx) {
+				return boolVal(e.x.D.fresh("noevent", "Bool"))
+			}
+			for _, h := range e.events[idx[k]].Held {
+				if h == lk {
+					return boolVal("true")
+				}
+			}
+			return boolVal("false")
+		case "ncallsIter":
+			// calls since the last loop-head cut (the current iteration of the innermost loop)
+			name := e.strArg(args[0])
+			n := 0
+			for _, i := range e.matchEvents(name) {
+				if e.events[i].Iter == e.s.iterEpoch {
+					n++
+				}
+			}
+			return Val{Typ: types.Typ[types.Int], L: []string{fmt.Sprint(n)}}
+		case "callresIter", "callargIter":
+			name := e.strArg(args[0])
+			k := e.intArg(args[1])
+			var idx []int
+			for _, i := range e.matchEvents(name) {
+				if e.events[i].Iter == e.s.iterEpoch {
+					idx = append(idx, i)
+				}
+			}
+			if k >= len(idx) {
+				return Val{Typ: nil, L: []string{"missing"}}
+			}
+			ev := e.events[idx[k]]
+			i := e.intArg(args[2])
+			if fn.Tok == "callresIter" {
+				if i < len(ev.Res) {
+					return ev.Res[i]
+				}
+			} else if i < len(ev.Args) {
+				return ev.Args[i]
+			}
+			return Val{Typ: nil, L: []string{"missing"}}
 		case "lastcallarg":
 			name := e.strArg(args[0])
 			idx := e.matchEvents(name)
